@@ -950,6 +950,23 @@ class E2E:
             items.update(it)
         return items, r
 
+    async def fetch_spec(self, seq: bytes, spec: bytes):
+        """FETCH seq <spec> with the spec sent as it is (a macro, one
+        attribute, or a parenthesised list) -> items dict or error string"""
+        r = await self.cmd(b'FETCH ' + seq + b' ' + spec)
+        if self.conn.closed or self.conn.exc is not None:
+            return f'connection lost: {self.conn.exc!r} {r[-200:]!r}'
+        try:
+            fetches, rest = parse_fetch(r)
+        except RespError as exc:
+            return f'unreadable FETCH response: {exc}'
+        if not self.tagged_ok(rest, self.last_tag) and not rest.startswith(self.last_tag + b' OK'):
+            return f'FETCH not OK: {rest[:200]!r}'
+        items = {}
+        for _seq, it in fetches:
+            items.update(it)
+        return items
+
     async def fetch_all(self, seq: bytes, parts, partials, fields=None, binary=None):
         """the data items of the statement for one message; fields =
         (names for HEADER.FIELDS, names for HEADER.FIELDS.NOT); binary = list of
@@ -1103,3 +1120,72 @@ def check_items(ctx, d: bytes, items, partials, rep, where: str, backend: str,
                  f'BINARY.SIZE {size!r}; BODY[{ps.decode()}] has {len(want)} and the encoding '
                  'is an identity', 'binary_wrong', part=list(p))
     return eff
+
+
+# attributes asked for on their own / in metadata-only company: a backend may
+# load less of the message when nothing in the FETCH needs its content
+SEPARATE_SPECS = [
+    (b'RFC822.SIZE', [b'RFC822.SIZE']),
+    (b'FAST', [b'RFC822.SIZE']),
+    (b'(UID RFC822.SIZE FLAGS)', [b'RFC822.SIZE']),
+    (b'(FLAGS INTERNALDATE RFC822.SIZE)', [b'RFC822.SIZE']),
+    (b'(RFC822.SIZE EMAILID THREADID)', [b'RFC822.SIZE']),
+    (b'BODYSTRUCTURE', [b'BODYSTRUCTURE']),
+    (b'BODY', [b'BODY']),
+    (b'(UID BODYSTRUCTURE)', [b'BODYSTRUCTURE']),
+    (b'RFC822.HEADER', [b'RFC822.HEADER']),
+    (b'(RFC822.SIZE RFC822.HEADER)', [b'RFC822.SIZE', b'RFC822.HEADER']),
+    (b'BODY.PEEK[HEADER]', [b'BODY[HEADER]']),
+    (b'BODY.PEEK[TEXT]', [b'BODY[TEXT]']),
+    (b'RFC822.TEXT', [b'RFC822.TEXT']),
+    (b'BODY.PEEK[]', [b'BODY[]']),
+    (b'BODY.PEEK[1]', [b'BODY[1]']),
+    (b'BODY.PEEK[1.MIME]', [b'BODY[1.MIME]']),
+    (b'ALL', [b'RFC822.SIZE']),
+    (b'FULL', [b'RFC822.SIZE', b'BODY']),
+]
+
+
+async def check_separately(ctx, e, seq: bytes, items, structure, eff: bytes, rep, where: str,
+                           binary_ok: bool) -> None:
+    """every attribute fetched alone and in metadata-only combinations must
+    give what the combined FETCH gave (and RFC822.SIZE = the length of the
+    message) — on the original and on its copies"""
+    backend = e.backend
+    specs = list(SEPARATE_SPECS)
+    if binary_ok:
+        specs += [(b'BINARY.SIZE[]', [b'BINARY.SIZE[]']), (b'BINARY.PEEK[]', [b'BINARY[]']),
+                  (b'(UID BINARY.SIZE[])', [b'BINARY.SIZE[]'])]
+    ref = dict(items)
+    if isinstance(structure, dict):
+        ref.update(structure)
+    for spec, keys in specs:
+        got = await e.fetch_spec(seq, spec)
+        if isinstance(got, str):
+            if e.conn.closed or e.conn.exc is not None:
+                ctx.extra.setdefault('separate_fetch_lost_connection', []).append(
+                    {'spec': spec.decode(), 'why': got[:160], 'data': rep['data'][:400]})
+                return
+            ctx.failure('rfc822_size' if b'SIZE' in spec else 'body_verbatim',
+                        f'[{backend}/{where}] FETCH {spec.decode()} alone: {got}',
+                        dict(rep, where=where, fetch=spec.decode()),
+                        {'kind': 'separate_fetch_failed', 'where': where, 'backend': backend})
+            continue
+        for k in keys:
+            if k not in ref:
+                continue
+            a, b = got.get(k), ref[k]
+            same = (lit(a) == lit(b)) if lit(b) is not None else (a == b)
+            if k in (b'RFC822.SIZE', b'BINARY.SIZE[]'):
+                same = same and isinstance(a, tuple) and a[1].isdigit() and int(a[1]) == len(eff)
+            if not same:
+                clause = 'rfc822_size' if k == b'RFC822.SIZE' else \
+                    'part_octets' if k in (b'BODYSTRUCTURE', b'BODY') else \
+                    'binary_identity' if k.startswith(b'BINARY') else 'body_verbatim'
+                shown = (a[1] if isinstance(a, tuple) and a[0] == 'atom' else lit(a) and lit(a)[:60])
+                ctx.failure(clause, f'[{backend}/{where}] FETCH {spec.decode()} gives '
+                            f'{k.decode()} = {shown!r}, the combined FETCH (and the '
+                            f'{len(eff)}-octet message) says otherwise',
+                            dict(rep, where=where, fetch=spec.decode()),
+                            {'kind': 'attribute_alone_differs', 'where': where,
+                             'backend': backend})
